@@ -56,6 +56,33 @@ def sub_plan(plan, fi):
     return q
 
 
+def directed_invocations(rng):
+    """hand-shaped invocations for the function-level correspondence only (they are not compiled): headers that differ in a LIFETIME
+    argument — a parameter in one family, a concrete lifetime in another (seeded change C17f: a canonicalised lifetime parameter
+    must not generalise `'static`), in trait and in inherent mode, with equal item sets so that a wrong merge changes the families"""
+    out = []
+    marks = ["GA", "GB", "GC", "GD"]
+    for mode in ("trait", "inherent"):
+        for conc in ("'static", "'static", "'b"):
+            rng.shuffle(marks)
+            item = 'const NAME: &\'static str = "x";'
+            if mode == "trait":
+                tr = "pub trait Kita<'l> { const NAME: &'static str; }"
+                hdr_p = lambda g_: f"impl<'a, T: D0<G = {g_}>> Kita<'a> for W1<T> {{ {item} }}"
+                hdr_c = lambda g_: (f"impl<T: D0<G = {g_}>> Kita<{conc}> for W1<T> {{ {item} }}" if conc == "'static"
+                                    else f"impl<'b, 'c, T: D0<G = {g_}>> Kita<'b> for W1<(T, &'c u8)> {{ {item} }}")
+            else:
+                tr = None
+                hdr_p = lambda g_: f"impl<'a, T: D0<G = {g_}>> Wr<'a, T> {{ {item} }}"
+                hdr_c = lambda g_: (f"impl<T: D0<G = {g_}>> Wr<{conc}, T> {{ {item} }}" if conc == "'static"
+                                    else f"impl<'b, T: D0<G = {g_}>> Wr<'b, Vec<T>> {{ {item} }}")
+            blocks = [hdr_p(marks[0]), hdr_p(marks[1]), hdr_c(marks[2]), hdr_c(marks[3])]
+            if rng.random() < 0.5:
+                blocks = blocks[2:] + blocks[:2]
+            out.append(((tr + " " if tr else "") + " ".join(blocks), blocks))
+    return out
+
+
 def run(tier, seed, replay=None):
     rep = C.Report(PROP, tier, seed)
     rep.rule = ("accepted invocations mixing equal, nested (a member whose header is an instance of the family's) and unrelated headers, "
@@ -75,7 +102,8 @@ def run(tier, seed, replay=None):
     n = 150 if tier == "quick" else 4000
     plans = [g.basic() for _ in range(n - n // 4)] + [g.lattice() for _ in range(n // 4)] + \
         [g.shifted_nested_plan() for _ in range(max(4, n // 25))] + [g.single_member_multi_key_plan() for _ in range(max(2, n // 50))] + \
-        [g.wildcard_prefix_plan() for _ in range(max(4, n // 25))] + [g.interleaved_keys_plan() for _ in range(max(2, n // 50))]
+        [g.wildcard_prefix_plan() for _ in range(max(4, n // 25))] + [g.interleaved_keys_plan() for _ in range(max(2, n // 50))] + \
+        [g.assoc_subsets_plan() for _ in range(max(3, n // 40))] + [g.default_vs_explicit_plan() for _ in range(max(2, n // 50))]
     rng.shuffle(plans)
     for p_ in plans:
         if add_header_twins(p_, rng, 0.12):
@@ -84,7 +112,7 @@ def run(tier, seed, replay=None):
     # (accepted plans, overlapping ones that must be rejected, trait arguments, inherent mode)
     corr = plans[: (60 if tier == "quick" else 1500)] + [g.overlap()[0] for _ in range(15 if tier == "quick" else 400)] + \
         [g.trait_args_plan() for _ in range(8 if tier == "quick" else 200)] + [g.inherent() for _ in range(8 if tier == "quick" else 200)] + [g.unsized_plan() for _ in range(15 if tier == "quick" else 300)]
-    groupcorr.compare(rep, exe, [(p.invocation_text(), [p.block_text(bi) for bi in p.order()]) for p in corr])
+    groupcorr.compare(rep, exe, [(p.invocation_text(), [p.block_text(bi) for bi in p.order()]) for p in corr] + directed_invocations(rng))
     dumps = shape.validate(rep, exe, plans, PROP, judge=False)
     # 1. memberOK / ThetaCovers / KeysOverHeader / ExpandOK were evaluated by shape.validate (judge=False: collect below)
     lean_reqs, where = [], []
